@@ -1,9 +1,14 @@
 (* C02 - Applying a legal move yields the correct successor position.
-   Proved: the checked operations accept exactly the moves `is_legal` accepts and leave the board(s)
-   untouched when they refuse. OPEN: C02_apply_exact_statement (decided by the correspondence on every
-   generated (position, legal move) against Rules.make). *)
+   Proved: for EVERY move that is pseudo-legal (hence every legal move) under the rules, on every board with
+   the placement invariant, a well-formed en-passant marker and castling rights backed by king and rook at
+   home, and clocks below the 16-bit limit: abs (apply b m) = Rules.make (abs b) m as a whole record -
+   placement incl. the rook hop, the en-passant victim and the promoted piece, side, the four rights, the
+   marker (set on and only on a double step), both clocks (C02_apply_exact).  The checked operations accept
+   exactly the moves `is_legal` accepts and leave the board(s) untouched when they refuse (C02_checked_gate).
+   Every parsed board satisfies the hypotheses (C02_parsed_boards_qualify); that make-move keeps them is the
+   open link shared with C04.  `is_legal` = rules legality is C01. *)
 From Coq Require Import NArith List Bool.
-From Chess Require Import base.Bits base.Types model.Board model.MoveGen model.Apply spec.Rules proofs.CoreFacts.
+From Chess Require Import base.Bits base.Types model.Board model.MoveGen model.Apply spec.Rules proofs.CoreFacts proofs.HashFacts proofs.ApplyFacts.
 Local Open Scope N_scope.
 
 Theorem C02_checked_gate : forall b m out,
@@ -13,6 +18,18 @@ Theorem C02_checked_gate : forall b m out,
 Proof. exact checked_gate. Qed.
 Print Assumptions C02_checked_gate.
 
-Definition C02_apply_exact_statement (Reach : board -> Prop) : Prop :=
-  forall b m, Reach b -> In m (legal_moves (abs b)) -> b_half b < 65535 -> b_full b < 65535 ->
-    abs (apply b m) = make (abs b) m.
+Theorem C02_apply_exact : forall b m, Part b -> ep_ok b -> rights_ok b -> b_half b < 65535 -> b_full b < 65535 ->
+  In m (legal_moves (abs b)) -> abs (apply b m) = make (abs b) m.
+Proof. exact apply_abs_legal. Qed.
+Print Assumptions C02_apply_exact.
+
+Theorem C02_apply_exact_pseudo : forall b m, Part b -> ep_ok b -> rights_ok b -> b_half b < 65535 -> b_full b < 65535 ->
+  In m (pseudo (abs b)) -> abs (apply b m) = make (abs b) m.
+Proof. exact apply_abs_pseudo. Qed.
+Print Assumptions C02_apply_exact_pseudo.
+
+Theorem C02_parsed_boards_qualify : forall b,
+  (validate_castle_rights b = true -> rights_ok b)
+  /\ (validate_en_passant b = true -> (forall f, b_ep b = Some f -> f < 8) -> ep_ok b).
+Proof. intros b. exact (conj (validate_castle_rights_ok b) (validate_en_passant_ok b)). Qed.
+Print Assumptions C02_parsed_boards_qualify.
